@@ -198,7 +198,7 @@ theorem sendDirect_life (c : Conn) (data : Bytes) (r : WriteRes)
     · exact queueRemainder_life _ _ _ _ hnd b
   | err e => exact queueRemainder_life _ _ _ _ hnd hi
 
-theorem sendInLoop_life (c : Conn) (data : Bytes) (hi : LifeInv c) : LifeInv (sendInLoop c data) := by
+theorem sendInLoop_life (c : Conn) (data : Bytes) (q : Bool) (hi : LifeInv c) : LifeInv (sendInLoop c data q) := by
   unfold sendInLoop
   split
   · exact emit_life _ _ rfl hi
@@ -206,11 +206,11 @@ theorem sendInLoop_life (c : Conn) (data : Bytes) (hi : LifeInv c) : LifeInv (se
     have hnd : c.st ≠ .kDisconnected := by simpa [sendGivesUp] using hg
     split
     · apply sendDirect_life
-      · have : (emit (popWrite (accept c data)) (Ev.sysWrite data.length (peekWrite c))).st = c.st := by
+      · have : (emit (popWrite (accept c data q)) (Ev.sysWrite data.length (peekWrite c))).st = c.st := by
           simp only [emit]; unfold popWrite accept; split <;> rfl
         rw [this]; exact hnd
       · apply emit_life _ _ rfl
-        exact (hi.frame (c' := accept c data) ⟨rfl, rfl, rfl, rfl, rfl, rfl, rfl, rfl, rfl, rfl⟩).frame (popWrite_same _)
+        exact (hi.frame (c' := accept c data q) ⟨rfl, rfl, rfl, rfl, rfl, rfl, rfl, rfl, rfl, rfl⟩).frame (popWrite_same _)
     · exact queueRemainder_life _ _ _ _ hnd (hi.frame ⟨rfl, rfl, rfl, rfl, rfl, rfl, rfl, rfl, rfl, rfl⟩)
 
 theorem shutdownInLoop_life (c : Conn) (hi : LifeInv c) : LifeInv (shutdownInLoop c) := by
@@ -259,8 +259,8 @@ theorem act_life (c : Conn) (f : Bool) (a : Act) (ha : c.alive = true) (hi : Lif
   | send d =>
     simp only [act]; split
     · split
-      · exact enqueue_life _ _ ha hi
-      · exact sendInLoop_life _ _ hi
+      · exact enqueue_life _ _ ha (hi.frame ⟨rfl, rfl, rfl, rfl, rfl, rfl, rfl, rfl, rfl, rfl⟩)
+      · exact sendInLoop_life _ _ _ (hi.frame ⟨rfl, rfl, rfl, rfl, rfl, rfl, rfl, rfl, rfl, rfl⟩)
     · exact hi
   | shutdown =>
     simp only [act]; split
@@ -343,15 +343,15 @@ theorem sendDirect_ao (c : Conn) (data : Bytes) (r : WriteRes) : SameAO c (sendD
 
 theorem popWrite_ao (c : Conn) : SameAO c (popWrite c) := ⟨(popWrite_same c).alive, (popWrite_same c).owner⟩
 
-theorem sendInLoop_ao (c : Conn) (data : Bytes) : SameAO c (sendInLoop c data) := by
+theorem sendInLoop_ao (c : Conn) (data : Bytes) (q : Bool) : SameAO c (sendInLoop c data q) := by
   unfold sendInLoop
   split
   · exact ⟨rfl, rfl⟩
   · split
     · refine SameAO.trans ?_ (sendDirect_ao _ _ _)
-      have := popWrite_ao (accept c data)
+      have := popWrite_ao (accept c data q)
       exact ⟨this.1, this.2⟩
-    · exact SameAO.trans (b := accept c data) ⟨rfl, rfl⟩ (queueRemainder_ao _ _ _ _)
+    · exact SameAO.trans (b := accept c data q) ⟨rfl, rfl⟩ (queueRemainder_ao _ _ _ _)
 
 theorem shutdownInLoop_ao (c : Conn) : SameAO c (shutdownInLoop c) := by
   unfold shutdownInLoop; split <;> exact ⟨rfl, rfl⟩
@@ -372,7 +372,7 @@ theorem act_ao (c : Conn) (f : Bool) (a : Act) : SameAO c (act c f a) := by
     simp only [act]; split
     · split
       · exact ⟨rfl, rfl⟩
-      · exact sendInLoop_ao _ _
+      · exact SameAO.trans (b := ({ c with offeredL := c.offeredL ++ [d] } : Conn)) ⟨rfl, rfl⟩ (sendInLoop_ao _ _ _)
     · exact ⟨rfl, rfl⟩
   | shutdown =>
     simp only [act]; split
@@ -662,7 +662,7 @@ theorem runTask_life (c : Conn) (t : Task) (rest : List Task) (hb : c.batch = t 
         have := (any_cons_false g3).1
         simp [hw, this] at hg
     cases t with
-    | sendInLoop d => exact sendInLoop_life _ _ (hpop' (by simp))
+    | sendInLoop d => exact sendInLoop_life _ _ _ (hpop' (by simp))
     | shutdownInLoop => exact shutdownInLoop_life _ (hpop' (by simp))
     | drainShutdownInLoop => exact shutdownInLoop_life _ (hpop' (by simp))
     | forceCloseInLoop =>
